@@ -1864,11 +1864,13 @@ class MindsDBParser(Parser):
 
     @_('QUOTE_STRING')
     def quote_string(self, p):
-        return p[0].strip('\'')
+        value = p[0].replace('\\"', '"').replace("\\'", "'").replace("''", "'")
+        return value.strip('\'')
 
     @_('DQUOTE_STRING')
     def dquote_string(self, p):
-        return p[0].strip('\"')
+        value = p[0].replace('\\"', '"').replace("\\'", "'")
+        return value.strip('\"')
 
     # for raw query
 
@@ -1894,11 +1896,28 @@ class MindsDBParser(Parser):
 
     @_('SYSTEM_VARIABLE')
     def variable(self, p):
-        return Variable(value=p.SYSTEM_VARIABLE, is_system_var=True)
+        # @@name, @@'name', @@"name", @@`name`: the name without sigils and quotes
+        value = p.SYSTEM_VARIABLE.lstrip('@')
+
+        if value[0] == '"':
+            value = value.strip('\"')
+        elif value[0] == "'":
+            value = value.strip('\'')
+        elif value[0] == "`":
+            value = value.strip('`')
+        return Variable(value=value, is_system_var=True)
 
     @_('VARIABLE')
     def variable(self, p):
-        return Variable(value=p.VARIABLE)
+        value = p.VARIABLE.lstrip('@')
+
+        if value[0] == '"':
+            value = value.strip('\"')
+        elif value[0] == "'":
+            value = value.strip('\'')
+        elif value[0] == "`":
+            value = value.strip('`')
+        return Variable(value=value)
 
     @_(
         'OR REPLACE',
